@@ -208,3 +208,32 @@ Fixpoint spec (is_invoke : bool) (c : nat) (n : node) {struct n} : list ev * boo
       end
   end.
 End Spec.
+
+(* ---------- the per-sandbox transition state is handed to the hooks BY REFERENCE ----------
+   (the hook macros receive the expression sandbox.transition_state): a hook that replaces the state s it is given by
+   [f s] makes the notifications of one sandbox observe  init, f init, f (f init), ...  in order, whatever other
+   sandboxes' notifications lie in between.  [cells]: sandbox -> current state. *)
+Definition notif_sbx (e : ev) : option nat :=
+  match e with EIn _ _ s | EOut _ _ s => Some s | _ => None end.
+Definition upd_cell (cells : nat -> nat) (s v : nat) : nat -> nat := fun x => if Nat.eqb x s then v else cells x.
+Fixpoint thread_states (f : nat -> nat) (cells : nat -> nat) (evs : list ev) : list nat :=
+  match evs with
+  | [] => []
+  | e :: tl =>
+    match notif_sbx e with
+    | Some s => cells s :: thread_states f (upd_cell cells s (f (cells s))) tl
+    | None => thread_states f cells tl
+    end
+  end.
+(* what C19 demands: the k-th notification of sandbox s observes f applied k times to s's initial state *)
+Fixpoint count_sbx (s : nat) (l : list nat) : nat :=
+  match l with [] => 0%nat | x :: tl => ((if Nat.eqb x s then 1 else 0) + count_sbx s tl)%nat end.
+Fixpoint expected_states (f : nat -> nat) (init : nat -> nat) (seen : list nat) (evs : list ev) : list nat :=
+  match evs with
+  | [] => []
+  | e :: tl =>
+    match notif_sbx e with
+    | Some s => Nat.iter (count_sbx s seen) f (init s) :: expected_states f init (s :: seen) tl
+    | None => expected_states f init seen tl
+    end
+  end.
